@@ -28,7 +28,7 @@ PROPS = {
     "C03": dict(fam=["tandem", "route", "cls", "renege", "prio", "schedblock", "infblock", "preblock"],
                 mc=["tandem", "tri", "route", "cls", "jockey", "infblock"], inv=["Inv_C03"], step=["Step_C03"]),
     "C06": dict(fam=["core1", "tandem", "renege"], mc=["core1", "tandem", "jockey"], inv=["Inv_C06"], step=["Step_C06"]),
-    "C07": dict(fam=["tandem", "cls", "route", "preblock", "infblock"], mc=["tandem", "tri", "cls", "infblock"], inv=["Inv_C07"], step=["Step_C07"]),
+    "C07": dict(fam=["tandem", "cls", "route", "preblock", "infblock", "overblock"], mc=["tandem", "tri", "cls", "infblock"], inv=["Inv_C07"], step=["Step_C07"]),
     "C10": dict(fam=["core1", "tandem", "prio", "renege", "fault", "jockey"], mc=["core1", "tandem", "prio", "jockey", "slotpre"],
                 inv=["Inv_C10"], step=["Step_C10"]),
     "C04": dict(fam=["tandem", "prio", "preempt", "sched", "schedpre", "core1", "schedblock", "preblock"],
@@ -41,7 +41,7 @@ PROPS = {
     "C11": dict(fam=["preempt", "ppccw"], mc=["preempt", "ppccw"], inv=["Inv_C11"], step=["Step_C11"]),
     "C13": dict(fam=["renege", "core1", "jockey", "slotren", "renegesched"], mc=["renege", "jockey", "renegesched"], inv=["Inv_C13"], step=["Step_C13"]),
     "C16": dict(fam=["pause"], mc=["pause"], inv=["Inv_C04", "Inv_C01"], step=["Step_C16"]),
-    "C17": dict(fam=["trk"], mc=["trk", "dead"], inv=["Inv_C17"], step=["Step_C17"]),
+    "C17": dict(fam=["trk", "trkccw"], mc=["trk", "dead"], inv=["Inv_C17"], step=["Step_C17"]),
     "C18": dict(fam=["dead", "dead3"], mc=["dead"], inv=["Inv_C18"], step=["Step_C18"]),
     "C19": dict(fam=["ps", "psfifo"], mc=["ps"], inv=["Inv_C19"], step=["Step_C19"]),
     "C20": dict(fam=["exact", "eps"], mc=["exact"], inv=[], step=["Step_C20"]),
@@ -49,7 +49,7 @@ PROPS = {
                 mc=["core1", "stopcount", "renegesched", "jsqsched"], inv=[], step=["Step_C14"]),
 }
 
-ALLFAM = ["mix", "mix", "mix", "ppccw", "eps", "slotren", "preblock", "pause", "date0", "jsqsched", "dead3", "jockey", "slotpre", "renegesched", "schedblock", "infblock", "ppsched", "ps", "core1", "tandem", "prio", "preempt", "cls", "clsren", "renege", "route", "sched", "schedpre", "schedblock",
+ALLFAM = ["mix", "mix", "mix", "ppccw", "eps", "slotren", "preblock", "overblock", "trkccw", "pause", "date0", "jsqsched", "dead3", "jockey", "slotpre", "renegesched", "schedblock", "infblock", "ppsched", "ps", "core1", "tandem", "prio", "preempt", "cls", "clsren", "renege", "route", "sched", "schedpre", "schedblock",
           "slot", "ccw", "trk", "reroute", "stopcount"]
 
 # vacuity gates (DESIGN section 5): witness tags that the validated traces of a check must contain at least once,
